@@ -580,6 +580,11 @@ func (c *SpecCtx) binary(e *Expr) SV {
 		}
 	case "==", "!=":
 		a, b := c.eval(e.Args[0]), c.eval(e.Args[1])
+		if op == "==" && !c.assume && a.isInt() && b.isInt() {
+			if w := c.tryModWitness(a.L[0], b.L[0]); w != nil {
+				return mathBool(w)
+			}
+		}
 		r := c.equal(e, a, b)
 		if op == "!=" {
 			r = Not(r)
@@ -983,4 +988,27 @@ func (c *SpecCtx) registerLazy(e *Expr) {
 	for _, t := range top.idxCands {
 		top.vc.Assume(inst(t))
 	}
+}
+
+// tryModWitness: a goal (X mod m) == 0 with a large constant modulus is restated as
+// X = m*K + Rest && Rest = 0 with K, Rest synthesised by polynomial normalisation.
+func (c *SpecCtx) tryModWitness(a, b *Term) *Term {
+	if z := a.IntConst(); z != nil && z.Sign() == 0 {
+		a, b = b, a
+	}
+	z := b.IntConst()
+	if z == nil || z.Sign() != 0 || a.Op != "mod" {
+		return nil
+	}
+	m := a.Args[1].IntConst()
+	if m == nil || m.BitLen() <= 64 {
+		return nil
+	}
+	k, rest, ok, why := modWitness(a.Args[0], m, c.tr.top.monoDefs)
+	if !ok {
+		c.tr.note("mod-witness tactic failed: " + why)
+		return nil
+	}
+	x := a.Args[0]
+	return And(Eq(rest, Int(0)), Eq(x, mk("+", SInt, mk("*", SInt, IntB(m), k), rest)))
 }
